@@ -564,6 +564,33 @@ static void gen_retry(vh_rng_t *rng)
   if (vh_chance(rng, 1, 10)) {
     gen_add_action((int64_t)vh_below(rng, 3000000), AA_CANCEL, 0, 0);
   }
+  if (vh_chance(rng, 1, 6)) {
+    /* several queries in flight to servers whose replies cause re-sends, repeat themselves or end the connection,
+     * with equal delays: the replies are read in ONE pass (re-sends are deferred to the end of the pass) */
+    int d = vh_range(rng, 1, 30), k;
+    for (k = 0; k < sim_nsrv; k++) {
+      gen_srv_mood(&sim_srv[k], vh_chance(rng, 2, 3) ? MOOD_RESEND_MIX : MOOD_GOOD, rng);
+      sim_srv[k].delay_min_ms = sim_srv[k].delay_max_ms = d;
+      sim_srv[k].dup_copies   = vh_chance(rng, 1, 2) ? vh_range(rng, 2, 4) : 0;
+    }
+    sim_no_subms_jitter      = 1;
+    sim_cfg.nonblocking_flag = 1;
+    sim_cfg.one_fd_per_call  = 0;
+    app_cfg.rotate           = 0;
+    app_cfg.flags           &= ~(ARES_FLAG_USEVC | ARES_FLAG_IGNTC);
+    if (vh_chance(rng, 2, 3)) {
+      app_cfg.udp_max_queries = 0;
+    }
+    for (k = 0; k < app_nact; k++) {
+      if (app_act[k].kind == AA_START) {
+        app_act[k].t = 0;
+      }
+    }
+    while (app_ntok < 4 && app_ntok < app_max_tokens) {
+      gen_add_token(rng, 0);
+    }
+    sim_note("retry_resend_causing_replies_in_one_read_pass");
+  }
   if (vh_chance(rng, 1, 8)) {
     /* learned timeouts across the end of a metrics period: a fast server answers several requests shortly
      * before the virtual clock passes a minute / quarter-hour / hour / day boundary and a few more right after
@@ -817,6 +844,9 @@ static void run_transport(vh_rng_t *rng)
   /* in run A a closing server's FIN sits right behind its last answer bytes; in run B it arrives a little later */
   sim_fin_delay_us = (int64_t)vh_range(&seg_rng, 1, 5) * 1000;
   sim_cfg.use_pending_write_cb = vh_chance(&seg_rng, 1, 2);
+  /* a send on a stream socket whose handshake has not finished: "try again" in run A (Linux), a hard ENOTCONN in half of
+   * the B runs (BSD, macOS, Windows) - the library never has a reason to make such a call */
+  sim_cfg.bsd_send_on_connecting = vh_chance(&seg_rng, 1, 2);
   /* NOTE: how the application polls (one descriptor per call, blocking-socket mode) is deliberately NOT varied
    * between A and B: reporting readiness late lets timers fire first, which legitimately changes outcomes and
    * has nothing to do with how the transport chops bytes. */
